@@ -43,6 +43,7 @@ func worldAuthz(w *World) {
 		"userConnTimeout": 3,
 	}
 	sshGW := w.KnobPick("ssh_gateway", 0, 0, 1, 2) // 0 off, 1 with authorized keys, 2 without client auth (token required)
+	sshChurn := w.KnobBool("ssh_churn", 15)        // an ssh step before every attack step
 	var sshDir string
 	var sshGood, sshBad ssh.Signer
 	if sshGW != 0 {
@@ -200,6 +201,16 @@ func worldAuthz(w *World) {
 			}
 		default: // a legitimate ssh user
 			if sshUp {
+				// further legitimate users come and go at arbitrary moments (their virtual clients are torn down inside frps)
+				cmd := "tcp --proxy_name sshchurn --remote_port 20009"
+				if sshGW == 2 {
+					cmd += " --token " + token
+				}
+				if cl := sshTunnel(sshGood, cmd); cl != nil {
+					time.Sleep(time.Duration(r.Intn(1500)) * time.Millisecond)
+					cl.Close()
+					w.Probe("authz.ssh_churn")
+				}
 				return
 			}
 			cmd := "tcp --proxy_name sshgood --remote_port 20008"
@@ -217,7 +228,7 @@ func worldAuthz(w *World) {
 	nattacks := w.KnobPick("nattacks", 5, 12, 30)
 	for i := 0; i < nattacks; i++ {
 		ts := time.Now().Unix() + int64(r.Range(-100000, 100000))
-		if sshGW != 0 && r.Intn(3) == 0 {
+		if sshGW != 0 && (r.Intn(3) == 0 || sshChurn) {
 			sshStep()
 		}
 		switch k := r.Intn(12); k {
